@@ -8,8 +8,9 @@ apart, as the C code has them:
 * `nread != nmeta`    → `ESL_XEXCEPTION(eslEOD, "dsqdata metadata loader: expected %d, got %d")` → `ERROR:` → `esl_fatal(...)`
   (the documented outcome: "we treat all exceptions as fatal" - the process ends with `exit(1)`; no consumer is left waiting)
 * an index that makes the loader read outside `idx[]` / a negative or oversized count: undefined behaviour (`fault`)
-* a short `fread` of the INDEX is not an error in the code: the records read so far are used and the partial one is dropped, so
-  a `.dsqi` cut short behind its header reads as a smaller database (`eod` earlier).
+* a short `fread` of the INDEX is not an error by itself (the records read so far are used, a partial one is dropped), but at end of
+  data the loader compares the number of sequences it loaded with the header's `nseq` (fix 78cbf46): a `.dsqi` cut short behind its
+  header ends in the same fatal branch (`fatalIndex`, applied by `readDbX`) instead of reading as a smaller database.
 
 `loaderIterX` is `loaderIterB` with these outcomes (`loaderIterX_B`); `loaderRunX` is the loader's main loop. -/
 namespace EaselModel.Dsqdata
@@ -67,7 +68,7 @@ inductive ReadEnd where
   | eof                              -- `nidx == 0`: end of data, EOD flags set, clean exit
   | fatalPackets (want got : Nat)    -- `esl_fatal`: the process ends
   | fatalMeta (want got : Nat)
-  | fatalIndex (want got : Nat)      -- end of data with fewer sequences than the index header announces (only in a tree whose loader checks)
+  | fatalIndex (want got : Nat)      -- end of data, but the number of sequences loaded is not the header's `nseq`
   | fault
 deriving Repr, DecidableEq
 
@@ -113,9 +114,9 @@ theorem loaderRunX_B (maxseq : Nat) (maxpacket : Int) : ∀ (fuel : Nat) (st : B
     files), and how the loader ended -/
 def readDbX (maxseq : Nat) (maxpacket : Int) (o : Opened) : List (BChunk × Option (List SeqRec)) × ReadEnd :=
   let r := loaderRunX maxseq maxpacket (o.ifp.length / 16 + 2) (BState.init o)
-  -- at end of data a loader that checks (`Consts.loaderChecksNseq`, regenerated from the source) compares what it loaded with `dd->nseq`
+  -- `if (nidx == 0) { if ((uint64_t) i0 != dd->nseq) ESL_XEXCEPTION(eslEFORMAT, …)`: at end of data the loaded count must be the header's
   let loaded := (r.1.map (·.n)).sum
-  let fin := if Consts.loaderChecksNseq && r.2 == .eof && loaded != o.nseq then ReadEnd.fatalIndex o.nseq loaded else r.2
+  let fin := if r.2 == .eof && loaded != o.nseq then ReadEnd.fatalIndex o.nseq loaded else r.2
   (r.1.map fun c => (c, unpackB o.pack5 c), fin)
 
 end EaselModel.Dsqdata
